@@ -81,8 +81,8 @@ CHECKS = {
         "identical or conflicting data, both engines and bare names; after "
         "every step full_ds and load_ds(data_name) are read back by label "
         "against the model; expected conflicts must raise and change "
-        "nothing.  A further phase sweeps date-valued arguments with a "
-        "text output.  One open finding (un-synced data dropped by the next "
+        "nothing.  Further phases sweep date-valued arguments with a "
+        "text output, and let the function gain outputs between sessions.  One open finding (un-synced data dropped by the next "
         "synced harvest) is excluded by construction and reported as "
         "KNOWN-FINDING.",
         "Values are float; label order is left to xarray; see "
